@@ -344,7 +344,12 @@ func gen(c *lcase, n int) (*prog, error) {
 		}
 		w("{{ h }}\n")
 	default:
-		return nil, fmt.Errorf("unknown resource %q", c.Res)
+		if err := genMore(c, n, p, &b); err != nil {
+			return nil, err
+		}
+	}
+	if p.files != nil {
+		return p, nil
 	}
 	if p.template {
 		p.files = scriggo.Files{"index.txt": []byte(b.String())}
@@ -478,7 +483,7 @@ func probe(c *lcase, n int) outcome {
 	}
 	if srcDir != "" {
 		for name, data := range p.files {
-			_ = os.WriteFile(filepath.Join(srcDir, fmt.Sprintf("%d_%s", c.Rid*100000+n, name)), data, 0o644)
+			_ = os.WriteFile(filepath.Join(srcDir, fmt.Sprintf("%d_%s", c.Rid*100000+n, strings.ReplaceAll(name, "/", "_"))), data, 0o644)
 		}
 	}
 	return exec(p)
@@ -597,4 +602,234 @@ func main() {
 			return sweep(&c)
 		},
 	})
+}
+
+// readers writes chunked functions <name>K(h int) int, each folding expr(i) for its units, and returns
+// the statements that thread h through them.
+func readers(c *lcase, b *strings.Builder, n, chunk int, name string, expr func(i int) string) string {
+	var calls strings.Builder
+	k := 0
+	for lo := 1; lo <= n; lo += chunk {
+		k++
+		fmt.Fprintf(b, "\nfunc %s%d(h int) int {\n", name, k)
+		for i := lo; i < lo+chunk && i <= n; i++ {
+			fmt.Fprintf(b, "\t{ %s }\n", expr(i))
+		}
+		b.WriteString("\treturn h\n}\n")
+		fmt.Fprintf(&calls, "\th = %s%d(h)\n", name, k)
+	}
+	return calls.String()
+}
+
+// pkgVarDecl is the declaration of package-level variable i of a register kind, with an initialiser.
+func pkgVarDecl(c *lcase, kind string, name string, i int) string {
+	switch kind {
+	case "int":
+		return fmt.Sprintf("var %s%d = %d\n", name, i, c.v(i))
+	case "float":
+		return fmt.Sprintf("var %s%d = %d.5\n", name, i, c.v(i))
+	case "string":
+		return fmt.Sprintf("var %s%d = %q\n", name, i, strings.Repeat("x", c.v(i)))
+	}
+	return fmt.Sprintf("var %s%d = []int{%d}\n", name, i, c.v(i))
+}
+
+func pkgVarRead(kind string, name string, i int) string {
+	switch kind {
+	case "int":
+		return fmt.Sprintf("%s%d", name, i)
+	case "float":
+		return fmt.Sprintf("int(%s%d)", name, i)
+	case "string":
+		return fmt.Sprintf("len(%s%d)", name, i)
+	}
+	return fmt.Sprintf("%s%d[0]", name, i)
+}
+
+// genMore: variants whose entries around the limit come from the allocation paths the builder treats
+// separately (nil, zero values of non-comparable types, composite zero values, function values and
+// literals), and resources consumed by package-level initialisers ($initvars) of the main package,
+// of an imported package and of an imported template file.
+func genMore(c *lcase, n int, p *prog, b *strings.Builder) error {
+	w := func(format string, a ...any) { fmt.Fprintf(b, format, a...) }
+	complexUnit := func(i int) string {
+		return fmt.Sprintf("{ c := %d + 1i; %s }", c.v(i), c.fold("int(real(c))"))
+	}
+	nilUnit := func(i int) string {
+		return fmt.Sprintf("{ var e interface{} = nil; x := 7; if e == nil { x = %d }; %s }", c.v(i), c.fold("x"))
+	}
+	switch {
+	case c.Res == "generalnil" || c.Res == "generalzero":
+		// n-1 distinct complex constants, then the first use of nil / of the zero value of a slice
+		// type (the variadic parameter of f(g()) when g's results leave it without arguments) as the LAST general value
+		w("package main\n\nfunc two() (int, int) { return 0, 0 }\n\nfunc vz(x, y int, a ...int) int { return x + y + len(a) }\n\n")
+		w("func main() {\n\th := 0\n")
+		for i := 1; i < n; i++ {
+			w("\t%s\n", complexUnit(i))
+		}
+		if c.Res == "generalnil" {
+			w("\t%s\n", nilUnit(n))
+		} else {
+			w("\t{ x := %d + vz(two()); %s }\n", c.v(n), c.fold("x"))
+		}
+		w("\tprint(h)\n}\n")
+	case c.Res == "generalmix":
+		// complex constants, zero values of distinct non-comparable types and nil in turn
+		w("package main\n\nfunc two() (int, int) { return 0, 0 }\n\n")
+		for i := 1; i <= n; i++ {
+			if i%3 == 2 {
+				w("func z%d(x, y int, a ...[%d]int) int { return %d + x + y + len(a) }\n", i, i, c.v(i))
+			}
+		}
+		w("\nfunc main() {\n\th := 0\n")
+		for i := 1; i <= n; i++ {
+			switch i % 3 {
+			case 1:
+				w("\t%s\n", complexUnit(i))
+			case 2:
+				w("\t{ %s }\n", c.fold(fmt.Sprintf("z%d(two())", i)))
+			case 0:
+				w("\t%s\n", nilUnit(i))
+			}
+		}
+		w("\tprint(h)\n}\n")
+	case c.Res == "typesmix":
+		// distinct types reached through new, make, a composite zero value and a map literal in turn
+		w("package main\n\nfunc main() {\n\th := 0\n")
+		for i := 1; i <= n; i++ {
+			k := c.v(i)
+			switch i % 4 {
+			case 0:
+				w("\t{ p := new([%d]int); s := p[:]; %s }\n", k, c.fold("len(s)"))
+			case 1:
+				w("\t{ s := make([][%d]int, 1); t := s[0][:]; %s }\n", k, c.fold("len(t)"))
+			case 2:
+				w("\t{ z := struct{ A [%d]int }{}; t := z.A[:]; %s }\n", k, c.fold("len(t)"))
+			case 3:
+				w("\t{ m := map[[%d]int]int{}; var k [%d]int; m[k] = %d; %s }\n", k, k, k, c.fold("m[k]"))
+			}
+		}
+		w("\tprint(h)\n}\n")
+	case c.Res == "sfuncmix":
+		// direct calls, function values and function literals in turn
+		w("package main\n\n")
+		for i := 1; i <= n; i++ {
+			if i%3 != 0 {
+				w("func f%d() int { return %d }\n", i, c.v(i))
+			}
+		}
+		w("\nfunc main() {\n\th := 0\n")
+		for i := 1; i <= n; i++ {
+			switch i % 3 {
+			case 1:
+				w("\t{ %s }\n", c.fold(fmt.Sprintf("f%d()", i)))
+			case 2:
+				w("\t{ g := f%d; %s }\n", i, c.fold("g()"))
+			case 0:
+				w("\t{ g := func() int { return %d }; %s }\n", c.v(i), c.fold("g()"))
+			}
+		}
+		w("\tprint(h)\n}\n")
+	case c.Res == "nfuncvals":
+		// native functions used as values
+		w("package main\n\nimport \"p\"\n\nfunc main() {\n\th := 0\n")
+		decl := native.Declarations{}
+		for i := 1; i <= n; i++ {
+			v := c.v(i)
+			decl[fmt.Sprintf("F%d", i)] = func() int { return v }
+			w("\t{ g := p.F%d; %s }\n", i, c.fold("g()"))
+		}
+		w("\tprint(h)\n}\n")
+		p.opts.Packages = native.Packages{"p": native.Package{Name: "p", Declarations: decl}}
+	case strings.HasPrefix(c.Res, "pkgvars_"):
+		// n package-level variables of ONE register kind, with initialisers: registers of $initvars
+		kind := strings.TrimPrefix(c.Res, "pkgvars_")
+		w("package main\n\n")
+		for i := 1; i <= n; i++ {
+			w("%s", pkgVarDecl(c, kind, "g", i))
+		}
+		calls := readers(c, b, n, 100, "get", func(i int) string { return c.fold(pkgVarRead(kind, "g", i)) })
+		w("\nfunc main() {\n\th := 0\n%s\tprint(h)\n}\n", calls)
+	case strings.HasPrefix(c.Res, "pkginit_"):
+		// n distinct constants / types used ONLY by one package-level initialiser
+		what := strings.TrimPrefix(c.Res, "pkginit_")
+		elem := map[string]string{"strings": "string", "general": "complex128", "types": "interface{}", "ints": "int"}[what]
+		w("package main\n\nvar g = []%s{\n", elem)
+		for i := 1; i <= n; i++ {
+			switch what {
+			case "strings":
+				w("\t%q,\n", strings.Repeat("x", c.v(i)))
+			case "general":
+				w("\t%d + 1i,\n", c.v(i))
+			case "types":
+				w("\t[%d]int{},\n", c.v(i))
+			case "ints":
+				w("\t%d,\n", c.v(i))
+			}
+		}
+		w("}\n")
+		chunk := 100
+		if what == "ints" {
+			chunk = 2000
+		}
+		calls := readers(c, b, n, chunk, "get", func(i int) string {
+			switch what {
+			case "strings":
+				return c.fold(fmt.Sprintf("len(g[%d])", i-1))
+			case "general":
+				return c.fold(fmt.Sprintf("int(real(g[%d]))", i-1))
+			case "types":
+				return fmt.Sprintf("x := g[%d].([%d]int); %s", i-1, c.v(i), c.fold("len(x[:])"))
+			}
+			return c.fold(fmt.Sprintf("g[%d]", i-1))
+		})
+		w("\nfunc main() {\n\th := 0\n%s\tprint(h)\n}\n", calls)
+	case c.Res == "libvars_string" || c.Res == "libinit_general":
+		// the same inside an imported Scriggo package
+		var lib strings.Builder
+		lib.WriteString("package lib\n\n")
+		var calls string
+		if c.Res == "libvars_string" {
+			for i := 1; i <= n; i++ {
+				lib.WriteString(pkgVarDecl(c, "string", "g", i))
+			}
+			calls = readers(c, &lib, n, 100, "Get", func(i int) string { return c.fold(pkgVarRead("string", "g", i)) })
+		} else {
+			lib.WriteString("var g = []complex128{\n")
+			for i := 1; i <= n; i++ {
+				fmt.Fprintf(&lib, "\t%d + 1i,\n", c.v(i))
+			}
+			lib.WriteString("}\n")
+			calls = readers(c, &lib, n, 100, "Get", func(i int) string { return c.fold(fmt.Sprintf("int(real(g[%d]))", i-1)) })
+		}
+		w("package main\n\nimport \"a.b/lib\"\n\nfunc main() {\n\th := 0\n%s\tprint(h)\n}\n", strings.ReplaceAll(calls, "h = Get", "h = lib.Get"))
+		p.files = scriggo.Files{"go.mod": []byte("module a.b\ngo 1.16\n"), "main.go": []byte(b.String()), "lib/lib.go": []byte(lib.String())}
+	case c.Res == "tmplimpvars":
+		// n string variables declared at the top level of an imported template file
+		p.template = true
+		var lib strings.Builder
+		for i := 1; i <= n; i++ {
+			fmt.Fprintf(&lib, "{%% var G%d = %q %%}\n", i, strings.Repeat("x", c.v(i)))
+		}
+		w("{%% import lib \"lib.txt\" %%}\n{%% var h = 0 %%}\n")
+		for i := 1; i <= n; i++ {
+			w("{%% if h >= 0 %%}{%% %s %%}{%% end %%}\n", c.fold(fmt.Sprintf("len(lib.G%d)", i)))
+		}
+		w("{{ h }}\n")
+		p.files = scriggo.Files{"index.txt": []byte(b.String()), "lib.txt": []byte(lib.String())}
+	case c.Res == "tmplstringsel":
+		// n distinct map keys written as selectors (m.k1): string values added by the selector path
+		p.template = true
+		m := map[string]int{}
+		w("{%% var h = 0 %%}\n")
+		for i := 1; i <= n; i++ {
+			m[fmt.Sprintf("k%d", i)] = c.v(i)
+			w("{%% if h >= 0 %%}{%% %s %%}{%% end %%}\n", c.fold(fmt.Sprintf("m.k%d", i)))
+		}
+		w("{{ h }}\n")
+		p.opts.Globals = native.Declarations{"m": &m}
+	default:
+		return fmt.Errorf("unknown resource %q", c.Res)
+	}
+	return nil
 }
